@@ -225,8 +225,20 @@ let run_line line =
           if obj && arg 0 <> "table" then pf " st=%d" (int_of_n st);
           pr_led (); pf "\n"
         | _ -> pf "= ?\n")
-     | "ss_map" -> ignore (exec (OSsMap (nctx (), z_of_int (int_of_string (arg 1))))); auto_line ()
-     | "ss_sess" -> ignore (exec (OSsSess (nctx (), z_of_int (int_of_string (arg 1))))); auto_line ()
+     | "ss_map" ->
+       let a = aset_of !sys (nctx ()) in
+       let now_s = N.div !world.w_now (n_of_int 1000) in
+       let input = z_of_int (int_of_string (arg 1)) in
+       let exp = mapping_expect a.a_map.a_cur input (N.sub now_s a.a_map.a_last) (timeout_of mapping_timeouts a.a_map.a_cur) in
+       ignore (exec (OSsMap (nctx (), input))); auto_line ();
+       if exp <> [] then pf "~ map=%s\n" (String.concat "|" (List.map (fun n -> string_of_int (int_of_n n)) exp))
+     | "ss_sess" ->
+       let a = aset_of !sys (nctx ()) in
+       let now_s = N.div !world.w_now (n_of_int 1000) in
+       let input = z_of_int (int_of_string (arg 1)) in
+       let exp = session_expect a.a_sess.a_cur input (N.sub now_s a.a_sess.a_last) in
+       ignore (exec (OSsSess (nctx (), input))); auto_line ();
+       (match exp with Some n -> pf "~ sess=%d\n" (int_of_n n) | None -> ())
      | "ss_enum" -> ignore (exec (OSsEnum (nctx (), z_of_int (int_of_string (arg 1))))); auto_line ()
      | "set_map" -> ignore (exec (OSetMap (nctx (), n_of_int (int_of_string (arg 1) land 255), n_of_string (arg 2)))); auto_line ()
      | "set_sess" -> ignore (exec (OSetSess (nctx (), n_of_int (int_of_string (arg 1) land 255), n_of_string (arg 2)))); auto_line ()
@@ -240,7 +252,11 @@ let run_line line =
      | "st_clear" -> ignore (exec (OStClear (nctx ()))); tbl_line ()
      | "band_init" -> ignore (exec (OBandInit (nctx ()))); auto_line ()
      | "band_hello" -> ignore (exec (OBandHello (nctx ()))); auto_line ()
-     | "band_update" -> ignore (exec (OBandUpdate (nctx ()))); auto_line ()
+     | "band_update" ->
+       let b = (aset_of !sys (nctx ())).a_band in
+       let exp = ni_expect b.b_r b.b_begun b.b_ni in
+       ignore (exec (OBandUpdate (nctx ()))); auto_line ();
+       pf "~ ni=%s\n" (string_of_n exp)
      | "band_choose" -> let r = exec (OBandChoose (nctx ())) in
        auto_line ~ret:(match r with RInt z -> (match z with Z0 -> "0" | Zpos p -> string_of_n (Npos p) | Zneg _ -> "-") | _ -> "?") ()
      | "band_do_hello" -> ignore (exec (OBandDoHello (nctx ()))); auto_line ()
